@@ -57,7 +57,8 @@ RPEVerdict(c, o) ==
 \* c = [metric, stamps (of the processed estimate), estpath (cumulative path of the processed estimate, integers), refpath]
 \* o = [out, nerr, ts, sfs, dist, dfs, ids (rpe: end poses, 0-based), st_est, st_ref (stamps of the stored trajectories), title_ok, label_ok]
 CompanionVerdict(c, o) ==
-  IF o.out # "ok" THEN "ok"                    \* refusals are judged by C01/C02
+  \* refusals are judged by C01/C02 - except that a legal unit change (all generated ones are: m -> mm/cm/km, deg <-> rad) is no reason to refuse
+  IF o.out # "ok" THEN (IF c.change # "none" /\ o.out = "MetricsException" THEN "LegalUnitChangeRefused" ELSE "ok")
   ELSE IF ~(Len(o.ts) = o.nerr /\ Len(o.sfs) = o.nerr /\ Len(o.dist) = o.nerr /\ Len(o.dfs) = o.nerr) THEN "NotOneEntryPerValue"
   ELSE IF c.metric = "ape" THEN
        (IF o.nerr # Len(c.stamps) THEN "NotOneEntryPerValue"
